@@ -5,7 +5,7 @@ from . import docgen as D
 ID = "C10"
 TOL = (1e-6, 1e-9)
 BOUNDS = {
-    "quick": "documents svg > [sibling before] [container >] faulty element [sibling inside container] [sibling after]; faulty element kind in {path, rect, circle, ellipse, "
+    "quick": "documents svg > [sibling before] [container >] faulty element [siblings inside container] [siblings after] (the siblings include percentage-sized shapes, which depend on the viewport in force); faulty element kind in {path, rect, circle, ellipse, "
              "line, polyline, polygon, g, svg, svg with viewBox, use, image, text}; faulty attribute in {d, transform, fill, stroke, stroke-width, opacity, x/width/r lengths, points, viewBox, "
              "preserveAspectRatio, style, href}; fault = a template with 1-2 fully symbolic characters (any Unicode scalar that is legal inside an XML attribute) at "
              "every interesting position, or one of a catalogue of concrete malformed values (incl. lengths that cannot be resolved: em/ex/vw in transforms and sizes, alone and followed by further functions); dangling, self, ancestor and mutually cyclic use references",
